@@ -100,13 +100,14 @@ def Attrs.validate (hrp : String) (orbAddr : Bytes) : Attrs → Res Unit
       if domain == Gen.cctpNobleDomain then .err "cctp:noble-domain"
       else if mint.isEmpty then .err "cctp:empty-recipient"
       else .ok ()
-  | .hyp tok domain rec_ hook hmeta _ feeDenom feeAmt =>
+  | .hyp tok domain rec_ hook hmeta gas feeDenom feeAmt =>
       if tok.length != Gen.hypTokenIDLen then .err "hyp:token-len"
       else if rec_.length != Gen.hypRecipientLen then .err "hyp:recipient-len"
       else if hook.length != 0 && hook.length != Gen.hypCustomHookLen then .err "hyp:hook-len"
       else if domain == Gen.hypNobleMainnetDomain || domain == Gen.hypNobleTestnetDomain then .err "hyp:noble-domain"
       else if hmeta != "" && !(hmeta.startsWith Gen.hypHookMetadataPrefix
                 && isHexString (hmeta.drop Gen.hypHookMetadataPrefix.length).toString) then .err "hyp:metadata"
+      else if gas < 0 || gas ≥ 18446744073709551616 then .err "hyp:gas-limit"
       else if feeAmt < 0 then .err "hyp:fee-negative"
       else if (feeAmt != 0 || feeDenom != "") && !validDenom feeDenom then .err "hyp:fee-denom"
       else .ok ()
